@@ -252,7 +252,7 @@ pub fn run(ctx: &Ctx) -> (Spec, Report) {
     // (a) exhaustive arrival orders
     let ks: Vec<usize> = if quick { vec![3, 4, 5] } else { vec![3, 4, 5, 6] };
     for &k in &ks {
-        for rep_i in 0..(if quick { 1 } else { 3 }) {
+        for rep_i in 0..(if quick { 2 } else { 4 }) {
             for &lang in ALL_LANGS.iter() {
                 if quick && k == 5 && !matches!(lang, LangId::Ts | LangId::Swift | LangId::Go) {
                     continue;
@@ -305,7 +305,7 @@ pub fn run(ctx: &Ctx) -> (Spec, Report) {
             }
             let mut variants = vec![];
             for th in 1..=16usize {
-                for ds in 0..ctx.tier.pick(2, 12) {
+                for ds in 0..ctx.tier.pick(4, 12) {
                     variants.push((format!("threads={th},delays={ds}"), vec![("TYPESHARE_VERIF_THREADS".to_string(), th.to_string()), ("TYPESHARE_VERIF_DELAYS".to_string(), format!("{}:{}", seed.wrapping_add(ds), 1500))]));
                 }
             }
